@@ -12,6 +12,14 @@ def sh(cmd, **kw):
     return subprocess.run(cmd, shell=True, capture_output=True, text=True, **kw)
 
 
+# repairs whose revert alone no longer breaks the property, because a later repair covers the same defect from another side (each was
+# reported when it was the only repair; the witness of its `fixed:` line was replayed on the reverted tree and holds)
+SUPERSEDED = {
+    '0bc61c7': 'since 4f1f087 a module that copied names from a one-request analysis of a star-import cycle counts as changed at the next '
+               'request, so the entry module this repair stopped keeping is analysed again anyway (same as seeded/C09-ring-entry-module-kept)',
+}
+
+
 def main():
     args = [a for a in sys.argv[1:] if not a.startswith('--')]
     out = sys.argv[sys.argv.index('--json') + 1] if '--json' in sys.argv else None
@@ -40,6 +48,10 @@ def main():
             r = sh('cd %s && ./check %s' % (HERE, prop), env=dict(os.environ, SUPP_REPO=wt), timeout=3600)
             viol = [x for x in r.stdout.splitlines() if x.startswith('VIOLATION')]
             ok = r.returncode == 1 and bool(viol)
+            if not ok and r.returncode == 0 and commit in SUPERSEDED:
+                rows.append(dict(property=prop, commit=commit, result='SKIP', note='superseded: ' + SUPERSEDED[commit]))
+                print('%s %s SKIP (superseded: the property holds on the reverted tree)' % (prop, commit))
+                continue
             rows.append(dict(property=prop, commit=commit, what=what[:160], result='caught' if ok else 'MISSED', exit=r.returncode,
                              violations=len(viol), suite=s.stdout.strip()[-60:]))
             print('%s %s %s exit=%d violations=%d suite=[%s] %s' % (prop, commit, 'CAUGHT' if ok else 'MISSED', r.returncode, len(viol),
